@@ -15,6 +15,12 @@ func (Engine) Generate(prop string, r *sim.Rand, tier string) *sim.Plan {
 	switch prop {
 	case "C13":
 		return genC13(r, tier)
+	case "C10":
+		return genC10(r, tier)
+	case "C12", "C09":
+		return genHist(r, tier, prop)
+	case "C11":
+		return genC11(r, tier)
 	}
 	panic("ledgersim: unknown property " + prop)
 }
@@ -32,12 +38,34 @@ func (Engine) Execute(prop string, p *sim.Plan, keep bool) (res *sim.Result) {
 	switch prop {
 	case "C13":
 		return execC13(p, keep)
+	case "C10":
+		return execC10(p, keep)
+	case "C12", "C09":
+		return execHist(prop, p, keep)
+	case "C11":
+		return execC11(p, keep)
 	}
 	r := sim.NewResult()
 	r.Aborted = fmt.Sprintf("unknown property %s", prop)
 	return r
 }
 
-func (Engine) SimplifyStep(prop string, s json.RawMessage) []json.RawMessage { return simplifyLStep(s) }
+func (Engine) SimplifyStep(prop string, s json.RawMessage) []json.RawMessage {
+	switch prop {
+	case "C10":
+		return simplifyC10Step(s)
+	case "C12", "C09", "C11":
+		return simplifyHStep(s)
+	}
+	return simplifyLStep(s)
+}
 
-func (Engine) SimplifyConfig(prop string, c json.RawMessage) []json.RawMessage { return nil }
+func (Engine) SimplifyConfig(prop string, c json.RawMessage) []json.RawMessage {
+	switch prop {
+	case "C10":
+		return simplifyC10Config(c)
+	case "C11":
+		return simplifyC11Config(c)
+	}
+	return nil
+}
